@@ -13,12 +13,13 @@ KANI = os.path.join(VERIF, 'kani')
 HARNESSES = {
     'C04': ['c04_float_max_order', 'c04_float_min_order', 'c04_float_compare', 'c04_float_divide_guard', 'c04_float_from'],
     'C13': ['l1_active_bits', 'l2_normal_new'],
+    'C20': ['l4_f32_constants'],
     'C08': ['c08_pushtype_equals_scalar'],
     'C10': ['c10_unfired_vector', 'c10_unfired_code', 'c10_unfired_graph'],
     # b_c09_int_vector_remove / b_c09_int_vector_sort / b_c09_float_vector_sort_total exist in kani/vector.rs.inc but are not run:
     # std's sort and Vec::retain did not finish in CBMC within 400 s even for length <= 2 (measured) -> those bodies stay undecided
     'C09': ['b_c09_bool_vector_count', 'b_c09_int_vector_sum', 'b_c09_int_vector_bool_index', 'b_c09_from_int_array'],
-    'C01': ['b_c09_bool_vector_count', 'b_c09_int_vector_sum', 'b_c09_int_vector_bool_index', 'l2_normal_new', 'l1_active_bits'],
+    'C01': ['b_c09_bool_vector_count', 'b_c09_int_vector_sum', 'b_c09_int_vector_bool_index', 'l2_normal_new', 'l1_active_bits', 'l4_f32_constants'],
 }
 WHAT = {
     'c04_float_max_order': 'FLOAT.MAX: result is one of the operands and >= both (no NaN); all f32 pairs',
@@ -32,6 +33,7 @@ WHAT = {
     'b_c09_from_int_array': 'BOUNDED (len<=3): the assumed contract of the trusted BoolVector::from_int_array (element i is arg[i] == 1)',
     'c04_float_from': 'FLOAT.FROMINTEGER / FLOAT.FROMBOOLEAN values; all i32 / bool',
     'l1_active_bits': 'float lemma L1 (assumed in random_bool_vector): 0 <= bits <= size, bits < i32::MAX; all (f32 in [0,1], i32 >= 0)',
+    'l4_f32_constants': 'float fact L4 (axiom ax_f32_constants: 0 <= MAX, 0 <= INFINITY, MIN <= 0, NEG_INFINITY <= 0) and the assumed contract of f32::clamp (bitwise equal to the if/else model for all x and all lo <= hi)',
     'l2_normal_new': 'float lemma L2 (axiom ax_normal_std_ok): rand_distr Normal::new(m, s).is_ok() == s.is_finite(); all f32 pairs',
     'b_c09_bool_vector_count': 'BOUNDED (len<=3): BOOLVECTOR.COUNT pushes the number of true elements',
     'b_c09_int_vector_sum': 'BOUNDED (len<=3): INTVECTOR.SUM pushes the wrapping sum',
